@@ -36,7 +36,7 @@ TIERS = {
               'require_branches': ['reader:svg2paths2', 'reader:Document', 'reader:SaxDocument', 'attr:special-characters',
                                    'attr:non-ascii', 'file:nested-new-directory', 'history:add_path-nested-group',
                                    'history:reload', 'svg-attributes', 'wsvg:same-dictionaries-twice']},
-    'thorough': {'shards': 14, 'random': 50000, 'timeout': 3400, 'min_cases': 30000,
+    'thorough': {'shards': 14, 'random': 300000, 'timeout': 3400, 'min_cases': 100000,
                  'require_branches': ['reader:svg2paths2', 'reader:Document', 'reader:SaxDocument',
                                       'attr:special-characters', 'attr:non-ascii', 'file:nested-new-directory',
                                       'history:add_path-nested-group', 'history:reload', 'svg-attributes', 'wsvg:same-dictionaries-twice']},
